@@ -214,14 +214,9 @@ def kh_rules(ctx):
     ctx.ob('C07.K6', 'RF-BIND', good, b.path, '%s:%s' % (b.file, b.line),
            'result list = verified update results in proof order' if good else 'returned list is not built from verify_single_update_proof results only')
     # cover HistoryProof
-    lv = set()
-    for g in b.guards():
-        if g['fail']:
-            lv |= leaves(g['cond'])
+    lv = guard_leaves(b)
     b2 = ctx.prog.one(H + 'verify_with_history_params')
-    for g in b2.guards():
-        if g['fail']:
-            lv |= leaves(g['cond'])
+    lv |= guard_leaves(b2)
     import re
     lv = {re.sub(r'\[[^\]]*\]', '', l) for l in lv}
     adt = [a for a in ctx.prog.adts_by_name.get('HistoryProof', []) if a['path'].startswith('akd_core::types')]
@@ -301,10 +296,7 @@ def vs_rules(ctx, pfx):
             good = False
     ctx.ob(pfx + '.S5', 'RF-UNIT', good, b.path, where, 'VerifyResult{epoch,version,value} are the checked proof fields' if good
            else 'returned VerifyResult fields are not proof.{epoch,version,value}')
-    lv = set()
-    for g in b.guards():
-        if g['fail']:
-            lv |= leaves(g['cond'])
+    lv = guard_leaves(b)
     adt = [a for a in ctx.prog.adts_by_name.get('UpdateProof', []) if a['path'].startswith('akd_core::types')]
     declared = [f['n'] for a in adt for v in a['variants'] for f in v['fields']]
     ctx.ob(pfx + '.COVER.decl.UpdateProof', 'RF-COVER', len(declared) == 8, 'akd_core::types::UpdateProof', None, 'UpdateProof fields = %s' % declared)
